@@ -172,6 +172,21 @@ def run(tier, seed):
     for c in lib.read_ndjson(cp):
         if "tool_error" in c:
             raise lib.ToolError("churn scenario: " + c["tool_error"])
+        if c.get("storm"):
+            # the junk kinds of the model as families: every first byte, every control tag in a tuple of the wrong shape, every cut of a
+            # well-formed frame -- each followed by a numbered message for a named process
+            v.case("storm")
+            if not c["wrote_all"] and c["still_connected"]:
+                raise lib.ToolError("storm scenario: the scripted peer could not write its frames")
+            scase = {"malformed_frames": c["malformed_frames"], "messages_sent": c["messages_sent"], "messages_handled": c["messages_handled"], "first_difference_after_the_malformed_frame": c["first_difference_after_the_malformed_frame"]}
+            plain = str(c["first_difference_after_the_malformed_frame"] or "").startswith("(no malformed frame")
+            if plain:
+                v.violation("well-formed messages written right behind a large one (one write, a tick among them) were not all delivered once, in order" + ("" if c["still_connected"] else "; the receiver stopped"), scase)
+            elif not c["still_connected"]:
+                v.violation("the receiver stopped / the connection was deregistered on a malformed but correctly framed input", scase)
+            elif not c["in_order_without_gaps"]:
+                v.violation("between malformed but correctly framed inputs, the messages addressed to a live process were not all delivered once, in order", scase)
+            continue
         v.case("churn " + str(c["round"]))
         ccase = {"workers": c["workers"], "round": c["round"], "waited_ms": c["waited_ms"]}
         if not c["wrote_all"]:
